@@ -1,6 +1,7 @@
 package vc
 
 import (
+	"os"
 	"fmt"
 	"go/token"
 	"go/types"
@@ -171,6 +172,11 @@ func (c *VCtx) store(fr *Frame, st *State, p Val, v Val, pos token.Pos) {
 	switch l := p.(type) {
 	case *Loc:
 		tv := c.asTerm(v)
+		if l.Kind != "cell" && !(l.Base != nil && isFreshRef(l.Base) && !c.isPublished(l.Base)) {
+			c.publish(v)
+		} else if l.Kind == "cell" && !strings.HasPrefix(l.Base.S, "cell!") {
+			c.publish(v)
+		}
 		switch l.Kind {
 		case "field", "cell":
 			c.checkAccess(fr, st, l, true, pos)
@@ -314,6 +320,7 @@ func (c *VCtx) execInstr(fr *Frame, st *State, in ssa.Instruction, incoming map[
 			r := c.freshRef(st, "new")
 			r.GT = x.Type()
 			c.zeroInit(st, r, el)
+			c.freshObjectGhost(st, r, el)
 			fr.env[x] = r
 			if n, ok := el.(*types.Named); ok && n.Obj().Pkg() != nil && n.Obj().Pkg().Path() == "sync/atomic" {
 				// a local variable of atomic type: private to this call until the function ends
@@ -1041,6 +1048,9 @@ func (c *VCtx) modSet(fn *ssa.Function, blocks map[*ssa.BasicBlock]bool, depth i
 				m2, a2 := c.callModSet(fn, x.Common(), depth)
 				if a2 {
 					all = true
+					if os.Getenv("GOVC_DEBUG") != "" {
+						fmt.Fprintf(os.Stderr, "modSet all via call %s in %s (depth %d)\n", x, fn, depth)
+					}
 				}
 				for k, v := range m2 {
 					mods[k] = v
@@ -1129,17 +1139,9 @@ func (c *VCtx) callModSet(fn *ssa.Function, cc *ssa.CallCommon, depth int) (map[
 			all[b] = true
 		}
 		m, a := c.modSet(callee, all, depth+1)
-		if ct := c.eng.ContractOf(callee); ct != nil {
-			for _, g := range ct.Ghost {
-				lhs, _, _ := strings.Cut(g.Src, ":=")
-				lhs = strings.TrimSpace(lhs)
-				if i := strings.Index(lhs, "("); i > 0 {
-					name, sort := c.ghostHeap(fnPkgPath(callee), lhs[:i])
-					m[name] = sort
-				} else {
-					a = true
-				}
-			}
+		if ct := c.eng.ContractOf(callee); ct != nil && len(ct.Ghost) > 0 {
+			tmp := &Frame{contract: ct}
+			c.ghostMods(tmp, m)
 		}
 		return m, a
 	}
